@@ -620,6 +620,7 @@ func runC14(r *Report, p *Program) {
 	c14R3(h)
 	c14R4(h)
 	c14R5(h)
+	selectionTables(h, "R6")
 }
 
 // c14R5: who may write the counters, and where.
